@@ -950,11 +950,17 @@ func (r *foRun) oracleC06() {
 			}
 		}
 
-		if !lonely || r.recentFailureAt(o) || containsStr(o.locksAtInvoke, o.key) {
+		if !lonely || containsStr(o.locksAtInvoke, o.key) {
 			continue
 		}
 
 		out.probe("lone_skipread_get")
+
+		// a cached failure does not hold SkipRead back either: every cache.Reader answers ErrNotFound
+		// under SkipRead (README: "SkipRead can be used to force cache refresh"), the failure cache included
+		if r.recentFailureAt(o) {
+			out.probe("skipread_get_with_cached_failure")
+		}
 
 		if len(o.builds) != 1 {
 			out.violate("C06.R5", "skipread-did-not-rebuild", "%s Get(%q) with SkipRead invoked its builder %d times and returned (%v, %v)", o.id(), o.key, len(o.builds), o.val, o.err)
